@@ -1,3 +1,3 @@
 #!/bin/bash
-# warm the cache for the gosched-based checks: instrument + build the C15 harness once
-cd "$(dirname "$0")/.." && C15_BUILD=1 checks/C15 quick >/dev/null 2>&1 || true
+# warm the cache for the gosched-based checks: instrument + build + one quick run of the C15 harness (evidence untouched)
+cd "$(dirname "$0")/.." && C15_NO_EVIDENCE=1 checks/C15 quick >/dev/null 2>&1 || true
